@@ -313,20 +313,28 @@ func ptrShape(t reflect.Type) bool {
 
 // walkValue visits v (held in the way `shape` says) and everything below it.
 func walkValue(v reflect.Value, path, shape, tag string, out *[]finding) {
-	walkSeen(v, path, shape, tag, out, map[uintptr]bool{})
+	walkSeen(v, path, shape, tag, out, map[seenRef]bool{})
+}
+
+// seenRef: a pointer already followed. The address alone does not identify a
+// value: a struct and its first field, an array and its first element live at
+// ONE address and are different values (of different types).
+type seenRef struct {
+	t reflect.Type
+	p uintptr
 }
 
 // walkSeen: seen holds the pointers already followed (pre-filled values may be cyclic).
-func walkSeen(v reflect.Value, path, shape, tag string, out *[]finding, seen map[uintptr]bool) {
+func walkSeen(v reflect.Value, path, shape, tag string, out *[]finding, seen map[seenRef]bool) {
 	walkValue := func(v reflect.Value, path, shape, tag string, out *[]finding) {
 		walkSeen(v, path, shape, tag, out, seen)
 	}
 	switch v.Kind() {
 	case reflect.Ptr:
-		if v.IsNil() || seen[v.Pointer()] {
+		if v.IsNil() || seen[seenRef{v.Type(), v.Pointer()}] {
 			return
 		}
-		seen[v.Pointer()] = true
+		seen[seenRef{v.Type(), v.Pointer()}] = true
 		walkValue(v.Elem(), path, shape, tag, out)
 		return
 	case reflect.Interface:
